@@ -373,13 +373,13 @@ fn boxed_lookup(cap: usize, n: usize) {
 // C04 / C03: drop accounting with counting tokens; the cache is dropped at the end and CBMC's
 // memory-leak check decides that every heap block was released.
 
-static mut DROPS: [u8; 16] = [0; 16];
+static mut DROPS: [u8; 32] = [0; 32];
 
 pub struct Tok(pub u8);
 impl Drop for Tok {
     fn drop(&mut self) {
         unsafe {
-            DROPS[(self.0 & 15) as usize] += 1;
+            DROPS[(self.0 & 31) as usize] += 1;
         }
     }
 }
@@ -403,7 +403,7 @@ impl core::borrow::Borrow<u8> for Tok {
 fn reset_drops() {
     unsafe {
         let mut i = 0;
-        while i < 16 {
+        while i < 32 {
             DROPS[i] = 0;
             i += 1;
         }
@@ -425,7 +425,7 @@ fn all_once(lo: u8, hi: u8) -> bool {
 fn none_twice() -> bool {
     let mut ok = true;
     let mut i = 0;
-    while i < 16 {
+    while i < 32 {
         ok = ok && drops(i) <= 1;
         i += 1;
     }
@@ -540,7 +540,7 @@ fn own_slru(np: usize, nt: usize) {
         // the only id that may legitimately reach 2 is a key id that was passed in a second time
         let mut ok = true;
         let mut i = 0u8;
-        while i < 16 {
+        while i < 32 {
             ok = ok && (drops(i) <= 1 || (i == kid && op <= 1 && kid != 6 && drops(i) == 2));
             i += 1;
         }
@@ -563,6 +563,123 @@ fn own_slru(np: usize, nt: usize) {
     checks! {
         "[C04] SegmentedCache: nothing is dropped twice or while retained" => mid_ok;
         "[C04] SegmentedCache: after dropping results and cache every key and value was dropped exactly once" => end_ok;
+    }
+}
+
+/// list of tokens: keys ids base.., values ids 16+base..
+fn tok_list(cap: usize, n: usize, base: u8) -> TL {
+    let mut c: TL = RawLRU::with_hasher(cap, H::default()).unwrap();
+    let mut i = 0;
+    while i < n {
+        let _ = c.put(Tok(base + i as u8), Tok(16 + base + i as u8));
+        i += 1;
+    }
+    c
+}
+
+/// after everything was dropped: ids in `present` (bit mask over key ids 0..16) were dropped exactly
+/// once (keys and their values), `dup` (a key id passed in a second time) exactly twice
+fn final_ok(present: u16, dup: Option<u8>, fresh_key: Option<u8>, fresh_val: Option<u8>) -> bool {
+    let mut ok = true;
+    let mut i = 0u8;
+    while i < 16 {
+        if (present >> i) & 1 == 1 {
+            let want = if dup == Some(i) { 2 } else { 1 };
+            ok = ok && drops(i) == want && drops(16 + i) == 1;
+        } else if fresh_key == Some(i) {
+            ok = ok && drops(i) == 1;
+        } else {
+            ok = ok && drops(i) == 0;
+        }
+        i += 1;
+    }
+    if let Some(v) = fresh_val {
+        ok = ok && drops(v) == 1;
+    }
+    ok
+}
+
+/// TwoQueueCache over tokens, all three queues occupied, ghost list full: put / remove / purge, drop
+fn own_2q() {
+    reset_drops();
+    let rs: usize = kani::any();
+    kani::assume(rs <= 2);
+    let mut c = caches::TwoQueueCache::verif_from_parts(2, rs, tok_list(2, 1, 0), tok_list(2, 1, 2), tok_list(1, 1, 4));
+    let present: u16 = 0b010101;
+    let pat: u8 = kani::any();
+    kani::assume(pat < 4);
+    let kid = [0u8, 2, 4, 9][pat as usize];
+    let op: u8 = kani::any();
+    kani::assume(op < 4);
+    match op {
+        0 => sink(c.put(Tok(kid), Tok(31))),
+        1 => drop(c.remove(&kid)),
+        2 => {
+            let _ = c.get(&kid);
+        }
+        _ => c.purge(),
+    }
+    let mid_ok = {
+        let mut ok = true;
+        let mut i = 0u8;
+        while i < 32 {
+            ok = ok && (drops(i) <= 1 || (op == 0 && i == kid && kid != 9 && drops(i) == 2));
+            i += 1;
+        }
+        ok
+    };
+    drop(c);
+    let end_ok = if op == 0 {
+        final_ok(present, if kid != 9 { Some(kid) } else { None }, if kid == 9 { Some(9) } else { None }, Some(31))
+    } else {
+        final_ok(present, None, None, None)
+    };
+    witness!(true, op == 0 && kid == 9, "W: new key into a full 2Q cache with a full ghost list (ghost eviction frees a node)");
+    checks! {
+        "[C04] TwoQueueCache: nothing is dropped twice or while retained" => mid_ok;
+        "[C04] TwoQueueCache: after dropping results and cache every key and value was dropped exactly once" => end_ok;
+    }
+}
+
+/// AdaptiveCache over tokens, full cache, both ghost lists full
+fn own_arc() {
+    reset_drops();
+    let p: usize = kani::any();
+    kani::assume(p <= 2);
+    let mut c = caches::AdaptiveCache::verif_from_parts(2, p, tok_list(2, 1, 0), tok_list(2, 2, 4), tok_list(2, 1, 2), tok_list(2, 2, 6));
+    let present: u16 = 0b11110101;
+    let pat: u8 = kani::any();
+    kani::assume(pat < 5);
+    let kid = [0u8, 2, 4, 6, 9][pat as usize];
+    let op: u8 = kani::any();
+    kani::assume(op < 4);
+    match op {
+        0 => sink(c.put(Tok(kid), Tok(31))),
+        1 => drop(c.remove(&kid)),
+        2 => {
+            let _ = c.get(&kid);
+        }
+        _ => c.purge(),
+    }
+    let mid_ok = {
+        let mut ok = true;
+        let mut i = 0u8;
+        while i < 32 {
+            ok = ok && (drops(i) <= 1 || (op == 0 && i == kid && kid != 9 && drops(i) == 2));
+            i += 1;
+        }
+        ok
+    };
+    drop(c);
+    let end_ok = if op == 0 {
+        final_ok(present, if kid != 9 { Some(kid) } else { None }, if kid == 9 { Some(9) } else { None }, Some(31))
+    } else {
+        final_ok(present, None, None, None)
+    };
+    witness!(true, op == 0 && kid == 9, "W: new key into a full ARC cache with full ghost lists");
+    checks! {
+        "[C04] AdaptiveCache: nothing is dropped twice or while retained" => mid_ok;
+        "[C04] AdaptiveCache: after dropping results and cache every key and value was dropped exactly once" => end_ok;
     }
 }
 
@@ -670,29 +787,39 @@ macro_rules! misc_family {
         }
         pub(crate) mod own {
             #[kani::proof]
-            #[kani::unwind(17)]
+            #[kani::unwind(33)]
             pub(crate) fn raw_c1n1() {
                 super::own_raw(1, 1)
             }
             #[kani::proof]
-            #[kani::unwind(17)]
+            #[kani::unwind(33)]
             pub(crate) fn raw_c2n2() {
                 super::own_raw(2, 2)
             }
             #[kani::proof]
-            #[kani::unwind(17)]
+            #[kani::unwind(33)]
             pub(crate) fn raw_c2n1() {
                 super::own_raw(2, 1)
             }
             #[kani::proof]
-            #[kani::unwind(17)]
+            #[kani::unwind(33)]
             pub(crate) fn slru_n22() {
                 super::own_slru(2, 2)
             }
             #[kani::proof]
-            #[kani::unwind(17)]
+            #[kani::unwind(33)]
             pub(crate) fn slru_n21() {
                 super::own_slru(2, 1)
+            }
+            #[kani::proof]
+            #[kani::unwind(33)]
+            pub(crate) fn twoq() {
+                super::own_2q()
+            }
+            #[kani::proof]
+            #[kani::unwind(33)]
+            pub(crate) fn arc() {
+                super::own_arc()
             }
         }
     };
